@@ -29,7 +29,7 @@ TFeasible(cap, dem, a) ==
     /\ \A s \in TSrcs(dem) : Sent(a, s, Len(cap)) = dem[s]
     /\ \A i \in TSinks(cap) : UsedCap(a, i, Len(dem)) <= cap[i]
 
-INF == 1000000000
+INF == 2147483000   \* above every difference of two costs below 2^30
 \* Residual edge i -> j: moving one unit of some source from sink i to sink j.
 \* Node 0 (index n+1 below) stands for "unused capacity": j -> 0 has weight 0 when j has spare capacity,
 \* 0 -> i has weight 0 ... a unit can only *leave* spare capacity, i.e. a path  i -> j -> spare  decreases
@@ -63,6 +63,15 @@ CertOK(cap, dem, cost, a, pot) ==
     /\ Len(pot) = Len(cap)
     /\ \A i \in 1..Len(cap), j \in 1..Len(cap) :
          i # j => LET w == EdgeW(cap, dem, cost, a, i, j) IN (w = INF \/ pot[j] <= pot[i] + w)
+
+\* the same with potentials beyond 32 bits, logged as pot = hi * 2^20 + lo (0 <= lo < 2^20): costs produced by the solver's own
+\* integer scaling may approach 2^30, and path sums over several sinks exceed what TLC's integers hold
+LeqSplit(hj, lj, hi, li, w) == LET dh == hj - hi IN
+                               IF dh > 1500 THEN FALSE ELSE IF dh < -1500 THEN TRUE ELSE dh * 1048576 + (lj - li) <= w
+CertOKSplit(cap, dem, cost, a, poth, potl) ==
+    /\ Len(poth) = Len(cap) /\ Len(potl) = Len(cap)
+    /\ \A i \in 1..Len(cap), j \in 1..Len(cap) :
+         i # j => LET w == EdgeW(cap, dem, cost, a, i, j) IN (w = INF \/ LeqSplit(poth[j], potl[j], poth[i], potl[i], w))
 
 \* the assignment derived from a plan gives each source a sink that receives most of it
 AssignOK(a, assign) ==
